@@ -331,7 +331,16 @@ class ImplRunner:
                     ctr[0] += 1
                     yield b
             self.gens[i].append([rid, ctr, 0])
-            data = (g(), declared)
+            gobj = g()
+            if op.get('gen_pre') == 'closed':
+                # a generator that is already finished when it is handed to send() (GEN_CLOSED): it yields nothing, like an empty one
+                gobj = g(data=b'')
+                next(gobj, None)
+                actual = b''
+            if not hasattr(self, 'genobjs'):
+                self.genobjs = {}
+            self.genobjs[rid] = gobj
+            data = (gobj, declared)
             line = 'send %d %d %d %s %s 1' % (i, rid, declared, hexs(actual), 'N' if tat is None else tat)
         else:
             payload = bytes(op['data'])
@@ -351,6 +360,17 @@ class ImplRunner:
         except Exception as e:
             res = 'exc %s' % type(e).__name__
         self.finish(i, line, res)
+
+    def do_genclose(self, op):
+        """the owner of a generator closes it while the layer is still sending from it: from now on it yields nothing"""
+        i, rid = op['i'], op['id']
+        g = getattr(self, 'genobjs', {}).get(rid)
+        if i not in self.layers:
+            self.plain('genclose %d %d' % (i, rid), 'bad-layer')
+            return
+        if g is not None:
+            g.close()
+        self.finish(i, 'genclose %d %d' % (i, rid), 'ok')
 
     def do_frame(self, op):
         i = op['i']
